@@ -842,6 +842,9 @@ func (e *Exec) intrinsic(fr *Frame, st *State, ins ssa.Instruction, callee *ssa.
 			e.fail("__modall on %s", cc.Args[0].Type())
 		}
 		return Val{}, true
+	case "__disjoint":
+		// two slices (or a slice and a string-free buffer) do not share a backing array
+		return Val{T: c.Not(c.Eq(e.tm.SliceBase(args[0].T), e.tm.SliceBase(args[1].T)))}, true
 	case "__has":
 		mt, ok := cc.Args[0].Type().Underlying().(*types.Map)
 		if !ok {
